@@ -6,5 +6,5 @@ cd "$WT" || exit 9
 git checkout -q -- . && git apply "$P" || { echo "patch does not apply"; exit 9; }
 trap 'git -C "$WT" checkout -q -- .' EXIT
 cd /verif
-GTVERIF_REPO="$WT" PYTHONDONTWRITEBYTECODE=1 JAX_PLATFORMS=cpu OMP_NUM_THREADS=1 ./.venv/bin/python -W ignore -m gtverif.run --prop "$PROP" --tier "$TIER" --no-evidence 2>&1 | grep -v Warning | cut -c1-400 | grep -E "^\[|^VIOLATION|^KNOWN|^INCONCLUSIVE" | head -8
+GTVERIF_REPO="$WT" PYTHONDONTWRITEBYTECODE=1 JAX_PLATFORMS=cpu OMP_NUM_THREADS=1 ./.venv/bin/python -W ignore -m gtverif.run --prop "$PROP" --tier "$TIER" --no-evidence ${ONLY:+--only "$ONLY"} 2>&1 | grep -v Warning | cut -c1-400 | grep -E "^\[|^VIOLATION|^KNOWN|^INCONCLUSIVE" | head -8
 echo "exit=${PIPESTATUS[0]}"
